@@ -1,5 +1,8 @@
 #!/bin/bash
-# usage: tools_seed.sh <prop> <src_seed_dir> <name>   -- validates a seeded change and runs the property's quick check on it
+# usage: tools_seed_scratch.sh <prop> <src_seed_dir> <name>
+# Like tools_seed.sh, but the detection run uses a scratch worktree (VERIF_REPO) and a scratch copy of
+# /verif (VERIF_DIR), so it can run while other checks are using /repo. The official run against /repo
+# itself is done afterwards with tools_reseed.sh.
 set -u
 export GOFLAGS=-mod=mod GOPROXY=off GOSUMDB=off GOTOOLCHAIN=local
 prop=$1; src=$2; name=$3
@@ -10,38 +13,38 @@ cp $src/demo_test.go $dst/demo_test.go.txt 2>/dev/null
 demodir=$(python3 -c "import json;print(json.load(open('$src/meta.json')).get('demo_dir','.'))" 2>/dev/null || echo .)
 [ "$demodir" = "" ] && demodir=.
 demoflags=$(python3 -c "import json;print(json.load(open('$src/meta.json')).get('demo_flags',''))" 2>/dev/null || echo "")
-# the demo's package clause decides the directory when meta.json does not say
 if grep -q "^package jparse" $src/demo_test.go; then demodir=jparse; fi
 if grep -q "^package jlib" $src/demo_test.go; then demodir=jlib; fi
 if grep -q "^package jxpath" $src/demo_test.go; then demodir=jlib/jxpath; fi
 sc=/tmp/sc_$name
 git -C /repo worktree remove --force $sc 2>/dev/null
 git -C /repo worktree add -q $sc HEAD || exit 2
-res_apply=fail; res_suite=fail; res_demo_mut=unknown; res_demo_orig=unknown
+res_apply=fail; res_suite=fail
+cp $src/demo_test.go $sc/$demodir/zz_demo_test.go
+if (cd $sc && timeout 300 go test $demoflags -count=1 -timeout 120s ./$demodir >/tmp/sc_$name.demo2 2>&1); then res_demo_orig=pass; else res_demo_orig=fail; fi
+rm -f $sc/$demodir/zz_demo_test.go
 if git -C $sc apply $dst/patch.diff; then res_apply=ok; fi
 if (cd $sc && go build ./... && go test -count=1 ./... >/tmp/sc_$name.suite 2>&1); then res_suite=pass; fi
 cp $src/demo_test.go $sc/$demodir/zz_demo_test.go
 if (cd $sc && timeout 300 go test $demoflags -count=1 -timeout 120s ./$demodir >/tmp/sc_$name.demo1 2>&1); then res_demo_mut=pass; else res_demo_mut=fail; fi
-git -C $sc checkout -q -- .
-if (cd $sc && timeout 300 go test $demoflags -count=1 -timeout 120s ./$demodir >/tmp/sc_$name.demo2 2>&1); then res_demo_orig=pass; else res_demo_orig=fail; fi
-git -C /repo worktree remove --force $sc
+rm -f $sc/$demodir/zz_demo_test.go
 echo "seed $name: apply=$res_apply suite=$res_suite demo(with change)=$res_demo_mut demo(unchanged)=$res_demo_orig"
 confirmed=false
 if [ $res_apply = ok ] && [ $res_suite = pass ] && [ $res_demo_mut = fail ] && [ $res_demo_orig = pass ]; then confirmed=true; fi
 detected=skipped
 if $confirmed; then
-  git -C /repo apply $dst/patch.diff
-  # evidence_backup: the evidence file must keep describing the unchanged tree
-  cp /verif/evidence/$prop.json /tmp/evidence_$prop.bak 2>/dev/null
-  (cd /verif && ./check $prop quick > $dst/check_output.txt 2>&1); rc=$?
-  cp /tmp/evidence_$prop.bak /verif/evidence/$prop.json 2>/dev/null; rm -f /tmp/evidence_$prop.bak
-  git -C /repo checkout -q -- .
-  if [ $rc -eq 1 ] && grep -q "^VIOLATION property=$prop" $dst/check_output.txt; then detected=yes; else detected="no(rc=$rc)"; fi
+  vc=/tmp/vcopy_$name
+  rm -rf $vc; mkdir -p $vc
+  rsync -a --exclude out --exclude .git --exclude seeded /verif/ $vc/
+  (cd $vc && VERIF_DIR=$vc VERIF_REPO=$sc /verif/bin/gosym check $prop quick > $dst/check_output.txt 2>&1); rc=$?
+  rm -rf $vc
+  if [ $rc -eq 1 ] && grep -q "^VIOLATION property=$prop" $dst/check_output.txt; then detected="yes(scratch)"; else detected="no(rc=$rc,scratch)"; fi
 fi
+git -C /repo worktree remove --force $sc
 python3 - <<PY
 import json
 m=json.load(open('$dst/meta.json'))
-m.update({"confirmed_in_scratch_worktree":$([ $confirmed = true ] && echo True || echo False),"suite_with_change":"$res_suite","demo_with_change":"$res_demo_mut","demo_unchanged":"$res_demo_orig","detected_by_quick_check":"$detected","ran":["git apply patch.diff; go test ./... ; go test ./$demodir with demo","git -C /repo apply; ./check $prop quick; git -C /repo checkout -- ."]})
+m.update({"confirmed_in_scratch_worktree":$([ $confirmed = true ] && echo True || echo False),"suite_with_change":"$res_suite","demo_with_change":"$res_demo_mut","demo_unchanged":"$res_demo_orig","detected_by_quick_check":"$detected"})
 json.dump(m,open('$dst/meta.json','w'),indent=1)
 PY
 echo "seed $name: confirmed=$confirmed detected=$detected"
